@@ -20,3 +20,44 @@ def merge_content_length(r1, r2, a, b):
         assert r1._raw_response == r2._raw_response
         assert y == z
         assert r1.is_read_completely() == r2.is_read_completely()
+
+
+from pyvc.api import sub
+from specs.http import dechunk, dechunk_step, hexval
+
+
+def tail(s, k):
+    return sub(s, k, len(s) - k)
+
+
+def lemma_dechunk_merge(body, x, b):
+    """consuming complete chunks from x and then, with what is left, from the newly read b is the same as consuming
+    them from x + b (the reading specification of the chunked mechanism does not depend on where the read boundary is)"""
+    pos = x.find(b"\r\n")
+    if pos < 0:
+        assert dechunk(body, x) == (body, x, False)
+    else:
+        xb = x + b
+        line = sub(x, 0, pos)
+        rest = tail(x, pos + 2)
+        n = hexval(line)
+        assert xb.find(b"\r\n") == pos
+        assert sub(xb, 0, pos) == line
+        assert tail(xb, pos + 2) == rest + b
+        assert dechunk(body, x) == dechunk_step(body, x, line, rest)
+        assert dechunk(body, xb) == dechunk_step(body, xb, sub(xb, 0, pos), tail(xb, pos + 2))
+        assert dechunk(body, xb) == dechunk_step(body, xb, line, rest + b)
+        if n + 2 > len(rest):
+            assert dechunk(body, x) == (body, x, False)
+        elif n == 0:
+            assert dechunk(body, x) == (body, tail(rest, 2), True)
+            assert tail(rest + b, 2) == tail(rest, 2) + b
+            assert dechunk_step(body, xb, line, rest + b) == (body, tail(rest + b, 2), True)
+            assert dechunk(body, xb) == (body, tail(rest, 2) + b, True)
+        else:
+            assert sub(rest + b, 0, n) == sub(rest, 0, n)
+            assert tail(rest + b, n + 2) == tail(rest, n + 2) + b
+            assert dechunk(body, x) == dechunk(body + sub(rest, 0, n), tail(rest, n + 2))
+            assert dechunk_step(body, xb, line, rest + b) == dechunk(body + sub(rest + b, 0, n), tail(rest + b, n + 2))
+            assert dechunk(body, xb) == dechunk(body + sub(rest, 0, n), tail(rest, n + 2) + b)
+            lemma_dechunk_merge(body + sub(rest, 0, n), tail(rest, n + 2), b)
